@@ -1,5 +1,5 @@
 #!/bin/bash
-# Build the framework from files on disk only (offline): native oracle + warm nightly MIR target dir.
+# Build the framework from files on disk only (offline): native oracle, encase oracle dependencies, warm nightly MIR target dir.
 set -e
 cd "$(dirname "$0")"
 export CARGO_NET_OFFLINE=true
@@ -12,3 +12,4 @@ s = Session()
 print('setup ok: MIR bodies', len(s.bodies), 'mir sha', s.mir_sha[:12])
 s.close()
 PY
+(cd encase_oracle && CARGO_TARGET_DIR=../.cache/encase-target cargo build --offline -q && echo "encase oracle built")
